@@ -33,7 +33,7 @@ def cases(tier, seed):
     # small configurations with every reply pattern (thorough) / seeded patterns (quick)
     small = [[('scu', [0])], [('scu', [0, 1])], [('scu', [0]), ('scu', [1, 2])],
              [('scu', [0, 1]), ('scp', [2])], [('scu', [0]), ('scp', [0])],
-             [('scu', [0, 1]), ('scu', [1, 2])], [('scp', [0, 1])]]
+             [('scu', [0, 1]), ('scu', [1, 2])], [('scp', [0, 1])], [('scu', [0, 1, 0])]]
     for cfg in small:
         n_ctx = sum(len(c[1]) for c in cfg)
         for tsn in (1, 2, 3):
@@ -54,7 +54,12 @@ def cases(tier, seed):
                 start = rnd.randrange(nxt)          # overlap with earlier classes
             else:
                 start = nxt
-            calls.append((rnd.choice(['scu', 'scu', 'scp']), list(range(start, start + k))))
+            lst = list(range(start, start + k))
+            if lst and rnd.random() < 0.25:
+                # the same class named twice inside one call (stacked @sop_classes decorators
+                # produce such lists)
+                lst.insert(rnd.randrange(len(lst) + 1), rnd.choice(lst))
+            calls.append((rnd.choice(['scu', 'scu', 'scp']), lst))
             nxt = max(nxt, start + k)
         yield dict(calls=calls, ts=rnd.randint(1, 3), maxlen=rnd.choice([0, 7, 128, 16384, 2 ** 32 - 1]),
                    pattern=None, seed=seed * 100003 + i)
